@@ -72,6 +72,7 @@ PROPS = {
             fam("matmul-float", g(gen.fam_matmul, mode="float"), 60, 1500, mode="float", view="values", rule="as above on arbitrary doubles"),
             fam("sizes", g(gen.fam_sizes, part="matmul"), 0, 0, view="values", rule="lengths 5..65 that are not small powers of two (loop remainders): inner length, row count, column count x all flags x additive term, batched"),
             fam("selfviews", g(gen.fam_selfviews), 0, 0, view="values", rule="an array multiplied (matmul, all four flag combinations, both operand orders) with another handle of itself: a clone, a same-shape view, views whose leading dimensions cross-broadcast with the original's"),
+            fam("matmul-large", g(gen.fam_matmul_large), 0, 0, view="values", rule="products of 2^12 .. 2^24 multiply-adds (matrices up to 1030 x 260 x 70, batched / broadcast leading dimensions, all flags, bias): single elements of the implementation's whole product against `matmulElem` (= indexing the model's matmul, C05_matmulat)"),
         ],
         "assumptions": [F64_NOTE],
     },
